@@ -9,11 +9,15 @@ TICKS = "{4900, 5200, 55000}"
 def check(ctx):
     thorough = ctx.tier == "thorough"
     ctx.build()
-    cfgs = [dict(NA=3, NB=0, MaxSteps=6, MaxDup=1, MaxBad=0, Ticks=TICKS, Ver=0)]
+    cfgs = [dict(NA=3, NB=0, MaxSteps=6, MaxDup=1, MaxBad=0, Ticks=TICKS, Ver=0),
+            # several re-request rounds with partial resupply in between (totals of 5)
+            dict(NA=5, NB=0, MaxSteps=7, MaxDup=0, MaxBad=0, Ticks="{5200}", Ver=1)]
     if thorough:
         cfgs = [dict(NA=3, NB=0, MaxSteps=7, MaxDup=1, MaxBad=1, Ticks=TICKS, Ver=0),
                 dict(NA=2, NB=2, MaxSteps=7, MaxDup=0, MaxBad=0, Ticks=TICKS, Ver=1),
-                dict(NA=4, NB=0, MaxSteps=7, MaxDup=0, MaxBad=0, Ticks="{5200, 55000}", Ver=1)]
+                dict(NA=4, NB=0, MaxSteps=7, MaxDup=0, MaxBad=0, Ticks="{5200, 55000}", Ver=1),
+                dict(NA=5, NB=0, MaxSteps=8, MaxDup=0, MaxBad=0, Ticks="{5200}", Ver=1),
+                dict(NA=6, NB=0, MaxSteps=8, MaxDup=0, MaxBad=0, Ticks="{5200}", Ver=0)]
     xc.mc_subpkg(ctx, cfgs)
     xc.trace_extract(ctx, 300 if thorough else 40)
     ctx.cov["rule"] = ("MC_SubPkg with logical time: Tick steps of 4.9 s / 5.2 s / 55 s between frames so that behaviours cross the 5 s idle "
